@@ -443,6 +443,9 @@ func emitChunk(d *DocStream, p []byte, c chunk) (int, error) {
 		var text []byte
 		if f, ok := it.(Fault); ok {
 			text = []byte(f.Text + "\n")
+			if f.Kind == Garbage && len(f.Text) >= 1 && len(f.Text) <= 4 && f.Text != "@@" {
+				text = []byte(f.Text) // short garbage is exactly its bytes (as in the symbolic model)
+			}
 		} else {
 			jb, err := json.Marshal(it)
 			if err != nil {
